@@ -138,13 +138,15 @@ impl Segment3D {
 
         let alpha: Float;
         let beta: Float;
-        if a1b1.x.abs() > TINY {
+        // interpolate along the dominant component of the segment
+        let (dx, dy, dz) = (a1b1.x.abs(), a1b1.y.abs(), a1b1.z.abs());
+        if dx > TINY && dx >= dy && dx >= dz {
             alpha = (a2.x - a1.x) / a1b1.x;
             beta = (b2.x - a1.x) / a1b1.x;
-        } else if a1b1.y.abs() > TINY {
+        } else if dy > TINY && dy >= dz {
             alpha = (a2.y - a1.y) / a1b1.y;
             beta = (b2.y - a1.y) / a1b1.y;
-        } else if a1b1.z.abs() > TINY {
+        } else if dz > TINY {
             alpha = (a2.z - a1.z) / a1b1.z;
             beta = (b2.z - a1.z) / a1b1.z;
         } else {
